@@ -242,6 +242,8 @@ class World:
                         disc_raises=False)
         self.cfg.update(cfg or {})
         self.out = []             # normalised outputs since the last env action
+        self.alloc = {}           # slot -> highest message number handed to a send() call
+        self.accepted = {}        # slot -> numbers of the messages that reached the queue
         self.events = {}          # slot -> [event tokens]
         self.deliv = {}           # slot -> [[tok, via]]
         self.slots = {}           # sid -> slot
@@ -492,10 +494,14 @@ class SyncWorld(World):
 
     def _app_send(self, slot):
         """server.send(sid, next payload) - called from a task."""
-        n = self.sent[slot] + 1
+        # the message gets its number at the call (concurrent sends number apart); a send that is
+        # refused without reaching the queue gives the number back (no schedule point in between)
+        n = max(self.sent[slot], self.alloc.get(slot, 0)) + 1
+        self.alloc[slot] = n
         so = self.socks.get(slot)
         if so is None:
             self.server.send(self.sids[slot], srv_payload(slot, n))
+            self.alloc[slot] = n - 1
             return
         # accepted = the packet carrying this payload was put on the session's queue during
         # the call (watching the put itself: under pre-emptive schedules a poll may already
@@ -505,10 +511,14 @@ class SyncWorld(World):
         orig = q.put
 
         def put(item, *a, **k):
-            if item is not None and self._pkt_token(slot, item) == 'M%d' % n:
+            mine = item is not None and self._pkt_token(slot, item) == 'M%d' % n
+            if mine:
                 seen.append(1)
-                self.sent[slot] = n      # at the put itself: concurrent sends number apart
-            return orig(item, *a, **k)
+            r = orig(item, *a, **k)
+            if mine:
+                self.sent[slot] = max(self.sent[slot], n)      # once the put has taken effect
+                self.accepted.setdefault(slot, []).append(n)
+            return r
         q.put = put
         try:
             self.server.send(self.sids[slot], srv_payload(slot, n))
@@ -517,6 +527,8 @@ class SyncWorld(World):
                 del q.put
             except AttributeError:
                 pass
+            if not seen and self.alloc.get(slot) == n:
+                self.alloc[slot] = n - 1
 
     def _queue_items(self, so):
         return so.queue.items
@@ -879,6 +891,8 @@ class AsyncWorld(World):
             slot = w._slot_of(sid)
             tok = cli_token(data)
             w._ev(slot, 'msg:' + tok)
+            if w.cfg.get('handlers_yield'):
+                await asyncio.sleep(0)
             if tok.startswith('mE'):
                 await w._app_send(slot)
             if tok.startswith('mX'):
@@ -887,6 +901,11 @@ class AsyncWorld(World):
         async def disconnect(sid, reason):
             slot = w._slot_of(sid)
             w._ev(slot, 'disc:' + REASON.get(reason, '?' + str(reason)))
+            if w.cfg.get('handlers_yield'):
+                # a coroutine handler that really suspends (awaits something of its own):
+                # everything else that is ready runs before it resumes
+                await asyncio.sleep(0)
+                await asyncio.sleep(0)
             if w.cfg['disc_raises'] == 'cancel':
                 # e.g. the handler awaited a task it had cancelled
                 raise asyncio.CancelledError()
